@@ -397,6 +397,25 @@ def fixed_numeric(ctx):
             if float((yt[-1] - ref).abs().max()) > tol or not torch.equal(yt[0], y0):
                 ctx.violation("ivp/fixed/%s/%s" % (method, gname), "%s on the %s grid: final error %.2e (tolerance %.0e) or first value != y0"
                               % (method, gname, float((yt[-1] - ref).abs().max()), tol), {"method": method})
+        # grids far from the origin and grids that are fine relative to where they lie (|h| << |t|): still one step of the scheme
+        # per interval (reference: the textbook tableau stepped by the harness)
+        TAB = {"euler": ([[0.0]], [1.0], [0.0]),
+               "rk4": ([[0.0], [0.5], [0.0, 0.5], [0.0, 0.0, 1.0]], [1 / 6, 1 / 3, 1 / 3, 1 / 6], [0.0, 0.5, 0.5, 1.0]),
+               "rk38": ([[0.0], [1 / 3], [-1 / 3, 1.0], [1.0, -1.0, 1.0]], [1 / 8, 3 / 8, 3 / 8, 1 / 8], [0.0, 1 / 3, 2 / 3, 1.0])}[method]
+        for gname, tsg in (("offset", 1000.0 + torch.linspace(0.0, 0.1, 21, dtype=DT)), ("offset-decreasing", 1000.0 - torch.linspace(0.0, 0.1, 21, dtype=DT)),
+                           ("fine", 1.0 + torch.linspace(0.0, 2e-4, 21, dtype=DT)), ("fine-negative", -3.0 + torch.linspace(0.0, 4e-5, 9, dtype=DT))):
+            n += 1
+            ctx.case(key=("fixed-relative-grid", method, gname))
+            rhs = lambda t_, y_, a_: -a_ * y_ + torch.cos(5.0 * t_) * 40.0
+            yt = xitorch.integrate.solve_ivp(rhs, tsg, y0, params=(a,), method=method)
+            yr = [y0]
+            for i_ in range(len(tsg) - 1):
+                h_ = tsg[i_ + 1] - tsg[i_]
+                yr.append(rk_step_ref(lambda t_, y_: rhs(t_, y_, a), tsg[i_], yr[-1], rhs(tsg[i_], yr[-1], a), h_, TAB[0], TAB[1], TAB[2]))
+            yr = torch.stack(yr)
+            if tuple(yt.shape) != tuple(yr.shape) or not torch.allclose(yt, yr, atol=1e-13, rtol=1e-12):
+                ctx.violation("ivp/fixed/%s/relative-grid" % method, "%s on the %s grid [%r .. %r] (%d points): differs from one step of the scheme per interval by %.2e"
+                              % (method, gname, float(tsg[0]), float(tsg[-1]), len(tsg), float((yt - yr).abs().max()) if yt.shape == yr.shape else float("nan")), {"method": method, "grid": gname})
         O = FAMILIES["oscillator"]
         ts = torch.linspace(0.0, 1.0, 9, dtype=DT)
         yo = torch.tensor(O["y0"], dtype=DT)
